@@ -807,15 +807,16 @@ Qed.
 Lemma wf_count_key d k : wf d ->
   length (filter (has_key k) (dvalues d)) = if dmem (DK k) (dkeys d) then 1 else 0.
 Proof.
-  intros [Hnd Hok]. induction d as [|[k' e] d IH]; cbn; [reflexivity|].
-  inversion Hnd as [|? ? Hk' Hnd']; subst. inversion Hok as [|? ? He Hok']; subst.
+  intros [Hnd Hok]. unfold dvalues, dkeys in *.
+  induction d as [|[k' e] d IH]; cbn; [reflexivity|].
+  cbn in Hnd. inversion Hnd as [|? ? Hk' Hnd']; subst. inversion Hok as [|? ? He Hok']; subst.
   specialize (IH Hnd' Hok'). unfold key_ok in He. cbn in He.
   destruct k' as [s|v n|i]; cbn.
   - destruct He as [He1 He2]. unfold has_key at 1. rewrite He1, He2. cbn.
     rewrite (str_eqb_sym k s). destruct (str_eqb s k) eqn:E; cbn.
     + apply str_eqb_eq in E. subst s. rewrite IH.
-      destruct (dmem (DK k) (dkeys d)) eqn:E2; [|reflexivity].
-      apply dmem_In in E2. contradiction.
+      destruct (dmem (DK k) (map fst d)) eqn:E2; [|reflexivity].
+      apply dmem_In in E2. subst k. contradiction.
     + exact IH.
   - destruct He as [He1 He2]. unfold has_key at 1, keyed. rewrite He1. cbn. exact IH.
   - destruct He as [He1 He2]. unfold has_key at 1, keyed. rewrite He1.
